@@ -125,12 +125,17 @@ def oracle_pca(ck, rng):
             mask = np.clip(ndi.gaussian_filter(mask, 0.8), 0.02, 1.0).astype(np.float32)
         chs = [None, (max(1, N // 3),) + shape, (N,) + shape, (5, max(1, shape[0] // 2), shape[1], shape[2]), (7, shape[0], shape[1], 2)]
         ch = chs[i % len(chs)]
+        if i % 4 == 3:
+            # an integer-typed stack (counts): the exact PCA is that of the same numbers
+            X = np.round(X * 12 + 90).astype([np.int16, np.uint8][(i // 4) % 2])
+            if X.dtype == np.uint8:
+                X = np.clip(X, 0, 255).astype(np.uint8)
         stack = X if ch is None else da.from_array(X, chunks=ch)
-        c = dict(N=N, shape=shape, n_components=k, mask=["none", "binary", "soft"][i % 3], chunks=ch, seed=ck.seed, i=i)
+        c = dict(N=N, shape=shape, n_components=k, mask=["none", "binary", "soft"][i % 3], chunks=ch, seed=ck.seed, i=i, dtype=str(X.dtype))
         fails = []
         try:
             clf = PcaClassifier(stack, mask, n_components=k, n_clusters=2, seed=0).run()
-            mean, S, Vt, proj = exact_pca(X, 1.0 if mask is None else mask, k)
+            mean, S, Vt, proj = exact_pca(X.astype(np.float64), 1.0 if mask is None else mask, k)
             sv = np.asarray(clf.pca.singular_values_)[:k]
             if np.abs(sv - S).max() > 1e-3 * S[0]: fails.append(f"singular values differ by {np.abs(sv - S).max() / S[0]:.3g} (relative)")
             comp = np.asarray(clf.pca.components_)[:k]
